@@ -251,6 +251,12 @@ class MetadorNode(wrapt.ObjectProxy):
                 self._guard_acl(NodeAcl.local_only, "parent")
             # the parent node is wrapped anew, so that restrictions added to this
             # node later are kept; it can go up just as far as the marked parent can
+            while self.__wrapped__.name == lp.name:
+                # this IS the marked parent (e.g. retrieved by path "."), go on as it would
+                lp = lp._self_local_parent
+                if lp is None:
+                    self._self_local_parent = None
+                    self._guard_acl(NodeAcl.local_only, "parent")
             at_marked = self.__wrapped__.parent.name == lp.name
             kwargs["local_parent"] = lp._self_local_parent if at_marked else lp
 
